@@ -9,6 +9,8 @@ TRUSTED = [
     "hand-written transcript model (coq/Model/Transcript.v, Nonce.v: the exact list of operations prover and verifier apply), tied to the code by "
     "operation-by-operation comparison with the instrumented merlin log",
     "Merlin/STROBE as a random oracle of the operation list (distinct lists give independent challenges): NOT proved",
+    "hand-written Gallina STROBE-128 / Merlin (coq/Crypto/Strobe.v over Crypto/Keccak.v, Model/MerlinOps.v) — a model of the merlin DEPENDENCY, validated on every run by replaying recorded "
+    "operation logs in Coq and comparing every challenge / RNG output byte for byte (Exec/MerlinExec.failing, Exec/MerlinOpsExec.chk_ops); vm_compute with primitive-free N arithmetic",
     "harness: instrumented merlin copy (records label, data, challenge output of every operation)",
 ]
 
